@@ -42,21 +42,11 @@ namespace hgraph
             }
         }
 
+        // Starting a try_except node is starting a single nested graph node (bind, start the child, sample the
+        // boundary consumers, pull the child's schedule): one implementation.
         void try_except_start(const NodeView &view, DateTime evaluation_time)
         {
-            auto nested = view.as<SingleNestedGraphNodeView>();
-            nested.ensure_child_graph();
-            single_nested_graph_bind_inputs(nested, evaluation_time);
-            single_nested_graph_bind_output(nested, evaluation_time);
-            if (nested.context().options.start_child_on_start)
-            {
-                nested.child_graph().start(evaluation_time);
-                schedule_sampled_input_consumers(
-                    nested.child_graph(),
-                    evaluation_time,
-                    nested.context().spec.input_bindings);
-            }
-            single_nested_graph_propagate_schedule(nested);
+            single_nested_graph_start(view, evaluation_time);
         }
 
         bool try_except_evaluate_impl(const void *, const NodeView &view, DateTime evaluation_time)
